@@ -68,7 +68,9 @@ class Normalise(Sub):
     backends = ("py",)
     n = {"quick": 40000, "thorough": 1000000}
     shards = {"quick": 8, "thorough": 16}
-    rule = "non-trivial: mixed signs among the arguments, or a non-zero sub-second part with a negative total, or a carry across units"
+    rule = ("argument tuples incl. exact cancellations (years/months against days; day/time part beyond 10^9 days brought back by years) against exact integer arithmetic; lazy "
+            "accessors also read in one of the 720 orders on a fresh equal object; non-trivial: mixed signs among the arguments, or a non-zero sub-second part with a negative "
+            "total, or a carry across units")
 
     def strategy(self, ctx):
         return st.one_of(args_small, args_small, args_big, args_cancel, args_ym_cancel, args_huge, args_huge_cancel)
